@@ -319,7 +319,12 @@ Definition mon_C05 : monitor := fun L s st s' =>
 Definition mon_C12 : monitor := fun L s st s' =>
   if negb (hs_ok st) then (fail_unchanged st, false) else
   (match hs_op st, hs_quote st, hs_extras st with
-   | OSwap _ _ _ _ _ _ _ _, [qr; qs; qc], [_; r; sp; c] => (qr =? r) && (qs =? sp) && (qc =? c)
+   | OSwap p _ funds offer _ _ _ _, [qr; qs; qc], [_; r; sp; c] =>
+       (* coins of the ask denom attached to the same transaction are a donation that arrives before the
+          swap is priced: the quote was for the state without it *)
+       let ask := if asset_eqb offer (s_pair_asset L s p 0) then s_pair_asset L s p 1 else s_pair_asset L s p 0 in
+       let donated := match ask with ANative d => coins_of d funds | AToken _ => 0 end in
+       if donated =? 0 then (qr =? r) && (qs =? sp) && (qc =? c) else true
    | OSend _ _ _ _ (HSwap _ _ _ _ _), [qr; qs; qc], [_; r; sp; c] => (qr =? r) && (qs =? sp) && (qc =? c)
    | _, _, _ => true
    end, false).
